@@ -168,6 +168,8 @@ def check_choice(ctx, case, by_construction=False):
     q = ChoiceQuestion("pick one", list(choices), default)
     q.set_multi_select(multi)
     q.set_max_attempts(attempts)
+    if case.get("error_message"):
+        q.set_error_message(case["error_message"])
     ask_and_judge(ctx, "choice", case, q, script)
 
 
@@ -187,6 +189,8 @@ def check_reask(ctx, case):
     q = ChoiceQuestion("pick one", list(choices), default)
     q.set_multi_select(multi)
     q.set_max_attempts(attempts)
+    if case.get("error_message"):
+        q.set_error_message(case["error_message"])
     for i, script in enumerate(case["scripts"]):
         if not ask_and_judge(ctx, "re-ask", case, q, script, "ask-%d" % i):
             return
@@ -221,6 +225,11 @@ def ask_and_judge(ctx, part, case, q, script, label="ask"):
         fail("C18.terminates", "the question ends", str(e), sig="non-termination")
         return False
     errors_printed = err.fetch().count("\x1b[31;1m")
+    if case.get("error_message") and '" is invalid' in err.fetch():
+        # (ambiguous entries and a missing value have messages of their own; an entry that is simply no choice is
+        # reported with the configured message, never with the built-in one)
+        fail("C18.attempts", "the configured error message replaces the built-in one", err.fetch(), sig="error-message")
+        return False
     if got[0] == "budget":
         fail("C18.terminates", list(want), got[1], sig="asks-forever")
         return False
@@ -367,8 +376,11 @@ def random_choice_case():
         default = draw(st.sampled_from(defaults_for(ch, multi)))
         answers = ANSWERS + ch + [str(i) for i in range(len(ch))] + [",".join(ch[:2]), " , ".join(ch[:2])]
         script = draw(st.lists(st.sampled_from(answers), max_size=5))
-        return {"choices": ch, "multi": multi, "default": default, "attempts": draw(st.sampled_from([None, 1, 2, 3])),
-                "script": script}
+        c = {"choices": ch, "multi": multi, "default": default, "attempts": draw(st.sampled_from([None, 1, 2, 3])),
+             "script": script}
+        if draw(st.integers(0, 3)) == 0:
+            c["error_message"] = "Nope, not {} here"
+        return c
 
     return case()
 
